@@ -213,4 +213,21 @@ META = {
         "stub": ["TCP link, reactor/selector, randomness: as for the WebSocket worlds", "dealer: scripted session on the real server transport"],
         "design_ref": "DESIGN.md section 4, C10",
     },
+    "C18": {
+        "title": "Remote exceptions arrive with their URI, arguments and class",
+        "budgets": {"quick": (120000, 60), "thorough": (3000000, 1200)},
+        "variants": ALL_VARIANTS,
+        "level_text": ("seeded search; the mapping itself is a pair of pure functions - what the simulation adds is the "
+                       "two-party, concurrent setting (several calls in flight, different registries and serializers on "
+                       "the two sessions, errors forwarded late and out of order); a clean batch is evidence, not proof"),
+        "rule": ("one run = two real sessions (callee, caller) with drawn exception registries (decorated, define()d, "
+                 "undefined, constructors incompatible with the carried arguments, a URI mapped to a different class on "
+                 "the caller), drawn serializers per side, traceback forwarding on/off, 2-7 calls whose endpoint raises "
+                 "one of 9 exception shapes with 4 argument lists; the scripted dealer routes CALL->INVOCATION and "
+                 "forwards the ERRORs late and in any order; non-trivial = at least one error forwarded; distinct = hash "
+                 "of (action kind, per-side state) sequence"),
+        "real": REAL_WAMP,
+        "stub": STUB_WAMP,
+        "design_ref": "DESIGN.md section 4, C18",
+    },
 }
